@@ -462,8 +462,21 @@ std::unique_ptr<SyncWritableMetricStorage> Meter::RegisterSyncMetricStorage(
     return nullptr;
   }
 
-  auto view_registry = ctx->GetViewRegistry();
   std::unique_ptr<SyncWritableMetricStorage> storages(new SyncMultiMetricStorage());
+  // Another handle for an instrument that is already registered records into the same storages.
+  auto &instrument_storages = sync_storages_[InstrumentKey{
+      instrument_descriptor.name_, instrument_descriptor.description_, instrument_descriptor.unit_,
+      instrument_descriptor.type_, instrument_descriptor.value_type_}];
+  if (!instrument_storages.empty())
+  {
+    for (auto &storage : instrument_storages)
+    {
+      static_cast<SyncMultiMetricStorage *>(storages.get())->AddStorage(storage);
+    }
+    return storages;
+  }
+
+  auto view_registry = ctx->GetViewRegistry();
 
 #ifdef ENABLE_METRICS_EXEMPLAR_PREVIEW
   auto exemplar_filter_type = ctx->GetExemplarFilter();
@@ -471,7 +484,7 @@ std::unique_ptr<SyncWritableMetricStorage> Meter::RegisterSyncMetricStorage(
 
   auto success = view_registry->FindViews(
       instrument_descriptor, *scope_,
-      [this, &instrument_descriptor, &storages
+      [this, &instrument_descriptor, &storages, &instrument_storages
 #ifdef ENABLE_METRICS_EXEMPLAR_PREVIEW
        ,
        exemplar_filter_type
@@ -497,6 +510,7 @@ std::unique_ptr<SyncWritableMetricStorage> Meter::RegisterSyncMetricStorage(
 #endif
             view.GetAggregationConfig()));
         storage_registry_.push_back(storage);
+        instrument_storages.push_back(storage);
         multi_storage->AddStorage(storage);
         return true;
       });
@@ -522,8 +536,21 @@ std::unique_ptr<AsyncWritableMetricStorage> Meter::RegisterAsyncMetricStorage(
         << "The metric context is invalid");
     return nullptr;
   }
-  auto view_registry = ctx->GetViewRegistry();
   std::unique_ptr<AsyncWritableMetricStorage> storages(new AsyncMultiMetricStorage());
+  // Another handle for an instrument that is already registered records into the same storages.
+  auto &instrument_storages = async_storages_[InstrumentKey{
+      instrument_descriptor.name_, instrument_descriptor.description_, instrument_descriptor.unit_,
+      instrument_descriptor.type_, instrument_descriptor.value_type_}];
+  if (!instrument_storages.empty())
+  {
+    for (auto &storage : instrument_storages)
+    {
+      static_cast<AsyncMultiMetricStorage *>(storages.get())->AddStorage(storage);
+    }
+    return storages;
+  }
+
+  auto view_registry = ctx->GetViewRegistry();
 
 #ifdef ENABLE_METRICS_EXEMPLAR_PREVIEW
   auto exemplar_filter_type = ctx->GetExemplarFilter();
@@ -531,7 +558,7 @@ std::unique_ptr<AsyncWritableMetricStorage> Meter::RegisterAsyncMetricStorage(
 
   auto success = view_registry->FindViews(
       instrument_descriptor, *GetInstrumentationScope(),
-      [this, &instrument_descriptor, &storages
+      [this, &instrument_descriptor, &storages, &instrument_storages
 #ifdef ENABLE_METRICS_EXEMPLAR_PREVIEW
        ,
        exemplar_filter_type
@@ -555,6 +582,7 @@ std::unique_ptr<AsyncWritableMetricStorage> Meter::RegisterAsyncMetricStorage(
 #endif
             view.GetAggregationConfig()));
         storage_registry_.push_back(storage);
+        instrument_storages.push_back(storage);
         static_cast<AsyncMultiMetricStorage *>(storages.get())->AddStorage(storage);
         return true;
       });
